@@ -516,7 +516,8 @@ func (i *Install) performInstall(rel *release.Release, toBeAdopted kube.Resource
 				if d.Version != rel.Version {
 					d.SetStatus(release.StatusSuperseded, "superseded by new release")
 					if err := i.recordRelease(d); err != nil {
-						slog.Error("failed to record the superseded release", slog.Any("error", err))
+						// do not mark the new revision deployed next to one that still is
+						return rel, fmt.Errorf("failed to supersede revision %d: %w", d.Version, err)
 					}
 				}
 			}
